@@ -243,7 +243,7 @@ def shards(tier):
                                         'broker': 'ack-all', 'near_wrap': True}))
         for early in (0, 1):
             for early2 in (0, 1):
-                for first in (('publish', 'PUBREC', 'LOSS') if not T else KINDS):
+                for first in ('publish', 'PUBREC', 'LOSS'):
                     out.append(('persist', {'profile': profile, 'rounds': 2, 'k': 2 if not T else 3, 'first': first, 'newwindow': 0, 'early': early, 'late': 0,
                                             'newwindow2': 0, 'early2': early2, 'late2': 0, 'broker': 'ack-all'}))
     return out
